@@ -7,14 +7,9 @@ package hipam
 // write. The oracle runs in every reachable datastore state.
 
 import (
-	"fmt"
-	"sort"
 	"testing"
-	"time"
 
 	"github.com/projectcalico/calico/libcalico-go/lib/backend/model"
-	"github.com/projectcalico/calico/zzverif/sched"
-	"github.com/projectcalico/calico/zzverif/vclock"
 	"github.com/projectcalico/calico/zzverif/vk"
 )
 
@@ -68,257 +63,8 @@ func c19Scenarios(thorough bool) []*schedScenario {
 	return scs
 }
 
-// resolveRefs replaces "@h0.N" (N-th address set-up allocated to handle h0, in address order) by the
-// address; set-up is deterministic so this is computed once per scenario on a scratch world.
-func resolveRefs(sc *schedScenario) {
-	need := false
-	for _, ops := range sc.Threads {
-		for _, o := range ops {
-			if len(o.IP) > 0 && o.IP[0] == '@' {
-				need = true
-			}
-		}
-	}
-	if !need {
-		return
-	}
-	w := newIPAMWorld(sc.Cfg)
-	w.bind()
-	defer func() { vclock.Unbind(); w.close() }()
-	byHandle := map[string][]string{}
-	for _, op := range sc.Setup {
-		r := w.run(w.ctx, op, nil)
-		byHandle[op.Handle] = append(byHandle[op.Handle], r.IPs...)
-	}
-	for h := range byHandle {
-		sort.Strings(byHandle[h])
-	}
-	for ti := range sc.Threads {
-		for oi := range sc.Threads[ti] {
-			o := &sc.Threads[ti][oi]
-			if len(o.IP) > 0 && o.IP[0] == '@' {
-				var h string
-				var n int
-				fmt.Sscanf(o.IP, "@%2s.%d", &h, &n)
-				o.IP = byHandle[h][n]
-			}
-		}
-	}
-}
-
-type grant struct {
-	who    string // "setup#i" or "T<i>#<j>"
-	handle string
-	ip     string
-}
-
-// c19Oracle — what the statement demands, nothing more:
-//
-//	every state:  stored blocks are structurally sound (no ordinal both free and allocated / twice
-//	              free), lie in a pool and do not repeat; every address handed to a caller that
-//	              nobody has since asked to release is recorded in its block under that caller's
-//	              handle (so it cannot also belong to somebody else); no address is handed to two
-//	              callers; a handle never counts FEWER addresses in a block than the block records
-//	              for it (an under-count would hide addresses from release-by-handle);
-//	quiescence:   handle counts equal block counts exactly — unless a client was killed, in which case
-//	              over-counting handles are the accepted crash residue.
-func c19Oracle(sw *schedWorld, x *sched.Exec, final bool) []sched.Fail {
-	var fails []sched.Fail
-	name := "C19"
-	bad := func(class, msg string) {
-		fails = append(fails, sched.Fail{Key: name + ":" + class, Msg: sw.sc.Name + ": " + msg})
-	}
-	blocks := sw.blocks()
-	seenCIDR := map[string]bool{}
-	perHandleBlock := map[string]map[string]int{}
-	live := map[string]vAlloc{}
-	for _, vb := range blocks {
-		if seenCIDR[vb.CIDR] {
-			bad("duplicate-block", "block "+vb.CIDR+" stored twice")
-		}
-		seenCIDR[vb.CIDR] = true
-		if sw.blockInPool(vb.CIDR) == nil {
-			bad("block-outside-pool", "block "+vb.CIDR+" is not a block of any pool")
-		}
-		for _, m := range blockStructure(vb.B) {
-			bad("block-structure", "block "+vb.CIDR+": "+m)
-		}
-		for _, a := range blockAllocs(vb.B) {
-			if a.Cooling {
-				continue
-			}
-			if _, dup := live[a.IP]; dup {
-				bad("address-in-two-blocks", a.IP)
-			}
-			live[a.IP] = a
-			if a.Handle != "" {
-				if perHandleBlock[a.Handle] == nil {
-					perHandleBlock[a.Handle] = map[string]int{}
-				}
-				perHandleBlock[a.Handle][a.Block]++
-			}
-		}
-	}
-	// which (handle / address) may legitimately have been freed by a release that has started
-	releasedHandle := map[string]bool{}
-	releasedIP := map[string]string{} // ip -> handle named ("" = any owner)
-	for ti, ops := range sw.sc.Threads {
-		for oi, op := range ops {
-			if !sw.res[ti][oi].Started {
-				continue
-			}
-			switch op.Kind {
-			case "rbh":
-				releasedHandle[op.Handle] = true
-			case "release":
-				h := ""
-				if op.WithHandle {
-					h = op.Handle
-				}
-				releasedIP[op.IP] = h
-			}
-		}
-	}
-	var grants []grant
-	add := func(who string, op vOp, r vRes) {
-		if !r.Done || (op.Kind != "auto" && op.Kind != "assignip") {
-			return
-		}
-		for _, ip := range r.IPs {
-			grants = append(grants, grant{who, op.Handle, ip})
-		}
-	}
-	for i, op := range sw.sc.Setup {
-		add(fmt.Sprintf("setup#%d", i), op, sw.setupRes[i])
-	}
-	for ti, ops := range sw.sc.Threads {
-		for oi, op := range ops {
-			add(fmt.Sprintf("T%d#%d", ti, oi), op, sw.res[ti][oi])
-		}
-	}
-	holder := map[string]grant{}
-	for _, g := range grants {
-		mayBeFreed := releasedHandle[g.handle]
-		if h, ok := releasedIP[g.ip]; ok && (h == "" || h == g.handle) {
-			mayBeFreed = true
-		}
-		if mayBeFreed {
-			continue
-		}
-		if prev, dup := holder[g.ip]; dup {
-			bad("address-given-twice", fmt.Sprintf("%s was handed to %s (handle %s) and to %s (handle %s), neither released", g.ip, prev.who, prev.handle, g.who, g.handle))
-		}
-		holder[g.ip] = g
-		a, ok := live[g.ip]
-		if !ok {
-			bad("granted-address-not-recorded", fmt.Sprintf("%s was handed to %s (handle %s) but its block does not record it as allocated", g.ip, g.who, g.handle))
-		} else if a.Handle != g.handle {
-			bad("granted-address-recorded-for-other", fmt.Sprintf("%s was handed to %s (handle %s) but its block records handle %q", g.ip, g.who, g.handle, a.Handle))
-		}
-	}
-	handles := sw.handles()
-	for h, per := range perHandleBlock {
-		for b, n := range per {
-			if handles[h][b] < n {
-				bad("handle-undercount", fmt.Sprintf("handle %s counts %d in block %s but the block records %d of its addresses", h, handles[h][b], b, n))
-			}
-		}
-	}
-	if final && !anyCrashed(x, len(sw.sc.Threads)) {
-		// which kind of call feeds each handle (for a specific, stable violation key)
-		feeder := map[string]string{}
-		for _, ops := range append([][]vOp{sw.sc.Setup}, sw.sc.Threads...) {
-			for _, op := range ops {
-				if op.Kind == "auto" || op.Kind == "assignip" {
-					if k, ok := feeder[op.Handle]; ok && k != op.Kind {
-						feeder[op.Handle] = "mixed"
-					} else {
-						feeder[op.Handle] = op.Kind
-					}
-				}
-			}
-		}
-		for h, per := range handles {
-			for b, n := range per {
-				if perHandleBlock[h][b] != n {
-					bad("handle-overcount-at-quiescence:"+feeder[h], fmt.Sprintf("no client crashed, all calls returned, yet handle %s counts %d in block %s while the block records %d", h, n, b, perHandleBlock[h][b]))
-				}
-			}
-		}
-	}
-	return fails
-}
-
 func TestVerif_C19(t *testing.T) {
 	vk.Run(t, "C19", func(c *vk.Ctx) {
-		msg, err := sched.SelfTest()
-		if err != nil {
-			c.ToolError(err.Error())
-			return
-		}
-		fmt.Println("INFO " + msg)
-		c.Rule("schedules = every interleaving of the threads' datastore operations (each Get/List/Create/Update/Delete of the real ipamClient on casstore is a scheduling point) within the preemption bound, times every placement of <= fault-budget faults {CAS conflict, client killed before the write, client killed after the write} at write operations; non-trivial = schedule with >=1 preemption or >=1 injected fault")
-		c.Assume("datastore = casstore: linearizable single-key compare-and-swap store with the etcd/Kubernetes backends' error semantics; values cross the boundary as JSON (second-granular timestamps)")
-		c.Assume("logical per-client clocks (1 ms per read, skew < 1 ms); reads of Node and IPAMConfig objects are not scheduling points (nobody writes them in these scenarios)")
-		scs := c19Scenarios(c.Thorough())
-		if rf := c.ReplayFile(); rf != "" {
-			var d sched.Detail
-			if err := vk.LoadReplay(rf, &d); err != nil {
-				c.ToolError("cannot load replay: " + err.Error())
-				return
-			}
-			for _, sc := range c19Scenarios(true) {
-				if sc.Name == d.Scenario {
-					resolveRefs(sc)
-					tr, fails, err := sched.Replay(sc.build(c19Oracle), sched.Options{MaxPreempt: 9, MaxFaults: 9, Faults: []sched.Fault{sched.FaultConflict, sched.FaultCrashBefore, sched.FaultCrashAfter}}, d.Choices)
-					if err != nil {
-						c.ToolError(err.Error())
-						return
-					}
-					for _, s := range tr {
-						fmt.Println("INFO   " + s)
-					}
-					c.Add("states", 1)
-					c.Add("transitions", int64(len(tr)))
-					c.Sample(map[string]any{"replayed": sc.describe(), "trace": tr})
-					for _, f := range fails {
-						c.Violation(f.Key, sched.Detail{Scenario: d.Scenario, Choices: d.Choices, Trace: tr, Msg: f.Msg})
-					}
-				}
-			}
-			return
-		}
-		opts := sched.Options{
-			MaxPreempt:    c.Pick(2, 3),
-			MaxFaults:     c.Pick(1, 2),
-			Faults:        []sched.Fault{sched.FaultConflict, sched.FaultCrashAfter},
-			HookBudget:    250,
-			Workers:       c.Pick(6, 8),
-			DetCheckEvery: c.Pick(50, 200),
-		}
-		if c.Thorough() {
-			opts.Faults = []sched.Fault{sched.FaultConflict, sched.FaultCrashBefore, sched.FaultCrashAfter}
-		}
-		total := time.Duration(c.Pick(80, 22*60)) * time.Second
-		t0 := time.Now()
-		for i, sc := range scs {
-			resolveRefs(sc)
-			o := opts
-			o.Budget = (total - time.Since(t0)) / time.Duration(len(scs)-i)
-			if o.Budget < time.Second {
-				o.Budget = time.Second
-			}
-			tr, fails, err := sched.RunDefault(sc.build(c19Oracle), o)
-			if err != nil {
-				c.ToolError(err.Error())
-				return
-			}
-			c.Sample(map[string]any{"scenario": sc.describe(), "default_schedule": tr, "oracle_failures": len(fails)})
-			st := sched.Explore(c, sc.build(c19Oracle), o)
-			_ = st
-		}
-		if n := vclock.UnboundReads(); n > 0 {
-			c.ToolError(fmt.Sprintf("%d clock reads came from goroutines without a logical clock (determinism not guaranteed)", n))
-		}
+		runSchedCheck(c, c19Scenarios(c.Thorough()), c19Scenarios(true), allocOracle("C19"))
 	})
 }
